@@ -422,7 +422,22 @@ func (st *state) judgeXRSecretWrite(e *simapi.LogEntry, xrName string) {
 		w.S.Violate("C09/published-into-secret-of-another-xr-incarnation", fmt.Sprintf("reconcile of XR %s worked on the XR with UID %s but wrote the secret controlled by the XR that now has that name (UID %s)", xrName, xrUID, curUID))
 		return
 	}
-	if c := controllerUID(e.Before); c != "" && c != xrUID {
+	// every incarnation of the XR this reconcile dealt with: it may have read one
+	// object and - that one deleted meanwhile - had its own create-if-missing
+	// apply answered with a new one; the secret of either is its XR's secret
+	mine := map[types.UID]bool{xrUID: true}
+	for _, l := range w.Store.Log {
+		if l.Seq >= e.Seq {
+			break
+		}
+		if l.TaskID == e.TaskID && l.Key.Kind == xrworld.XRGVK.Kind && l.Key.Group == xrworld.XRGVK.Group && l.Key.Name == xrName && l.After != nil && l.Err == nil && l.Injected == "" {
+			mine[(&unstructured.Unstructured{Object: l.After}).GetUID()] = true
+		}
+	}
+	if c := controllerUID(e.Before); c != "" && mine[c] && c != xrUID {
+		w.S.Probe("xr-secret-of-the-incarnation-this-reconcile-started-on")
+	}
+	if c := controllerUID(e.Before); c != "" && !mine[c] {
 		sig := "C09/xr-wrote-foreign-secret"
 		// did the secret look like the XR's own (or absent, or uncontrolled) when
 		// this reconcile last read it, and was it swapped before the write?
